@@ -27,7 +27,10 @@
 (*    code takes its minimum under an arbitrary total order)                *)
 (*  - groups are stored as the full set of permutations, not as a           *)
 (*    stabiliser chain (that refinement is Group.tla / C10)                 *)
-(*  - no proofs, no analysis data, no syn/sem distinction                   *)
+(*  - no proofs, no syn/sem distinction; the ANALYSIS is modelled (constant  *)
+(*    Analysis): per class a datum, make/merge, pending entries of type     *)
+(*    "full" / "only" (PendingType), update_analysis, the join in move_to;   *)
+(*    no modify hook                                                         *)
 (*  - which of two classes survives a merge: the one with more nodes+usages *)
 (*    (the code also prefers fewer syntactic slots); immaterial             *)
 (*  - the pending list is a sequence served first-in-first-out or           *)
@@ -35,7 +38,8 @@
 (***************************************************************************)
 EXTENDS Terms, SequencesExt
 
-CONSTANTS Policy        \* "fifo" | "lifo": order in which pending e-nodes are served
+CONSTANTS Policy,       \* "fifo" | "lifo": order in which pending e-nodes are served
+          Analysis      \* "none" | "leaves" (set of leaf operators, merge = union) | "size" (smallest term size, merge = min)
 
 FreshBase == 100        \* names >= FreshBase are internal (class slots, refreshed binders)
 
@@ -74,9 +78,9 @@ GClose(G) ==
   LET G2 == G \cup {Comp(p, q) : p \in G, q \in G} IN IF G2 = G THEN G ELSE GClose(G2)
 
 (*************************** state *****************************************)
-(* st = [cls  : id -> [alive, slots, nodes, grp],                           *)
+(* st = [cls  : id -> [alive, slots, nodes, grp, data],                     *)
 (*       uf   : id -> invocation (leader: [id, identity on its slots]),     *)
-(*       pend : Seq(<<id, node>>),  nid : next id,  ns : next fresh name]   *)
+(*       pend : Seq(<<id, node, type>>),  nid : next id,  ns : next fresh name] *)
 Empty == [cls |-> << >>, uf |-> << >>, pend |-> << >>, nid |-> 1, ns |-> FreshBase]
 Ids(st)   == DOMAIN st.cls
 Alive(st) == {i \in Ids(st) : st.cls[i].alive}
@@ -130,17 +134,43 @@ HitInvocation(st, n, h) ==
       nm == NameMap(cv, n)
   IN [id |-> h[1], m |-> Restr(nm, st.cls[h[1]].slots)]
 
-(* upon touching a class, all e-nodes that use it have to be re-canonicalised *)
-Touch(st, i) ==
-  LET new == {p \in AllNodes(st) : i \in Refs(p[2])} \ Range(st.pend)
-  IN [st EXCEPT !.pend = @ \o SetToSeq(new)]
+(*************************** analysis ***************************************)
+INFSIZE == 1000000
+RECURSIVE SumSq(_)
+SumSq(q) == IF q = << >> THEN 0 ELSE Head(q) + SumSq(Tail(q))
+AnMake(st, n) ==
+  CASE Analysis = "leaves" -> IF n.ch = << >> THEN {n.op} ELSE UNION {st.cls[FindA(st, n.ch[k].a).id].data : k \in DOMAIN n.ch}
+    [] Analysis = "size"   -> LET t == 1 + SumSq([k \in DOMAIN n.ch |-> st.cls[FindA(st, n.ch[k].a).id].data]) IN IF t > INFSIZE THEN INFSIZE ELSE t
+    [] OTHER               -> 0
+AnMerge(a, b) ==
+  CASE Analysis = "leaves" -> a \cup b
+    [] Analysis = "size"   -> IF a <= b THEN a ELSE b
+    [] OTHER               -> 0
+
+(* upon touching a class, all e-nodes that use it have to be re-canonicalised
+   ("full") or at least re-analysed ("only"); a queued entry keeps the stronger type *)
+PendKeys(st) == {<<q[1], q[2]>> : q \in Range(st.pend)}
+TouchT(st, i, ty) ==
+  LET us  == {p \in AllNodes(st) : i \in Refs(p[2])}
+      new == us \ PendKeys(st)
+      up  == [k \in DOMAIN st.pend |->
+                IF ty = "full" /\ <<st.pend[k][1], st.pend[k][2]>> \in us THEN <<st.pend[k][1], st.pend[k][2], "full">> ELSE st.pend[k]]
+      nq  == SetToSeq(new)
+  IN [st EXCEPT !.pend = up \o [k \in DOMAIN nq |-> <<nq[k][1], nq[k][2], ty>>]]
+Touch(st, i) == TouchT(st, i, "full")
+
+(* update_analysis: re-make the node, join into its class, re-queue the parents when the datum changed *)
+UpdateAnalysis(st, i, c) ==
+  LET old == st.cls[i].data
+      new == AnMerge(old, AnMake(st, c))
+  IN IF new = old THEN st ELSE TouchT([st EXCEPT !.cls[i].data = new], i, "only")
 
 Fresh(st, S) ==      \* a map S -> brand-new names, and the state that knows they are used
   LET ss == KSort(S) IN
   [f |-> [x \in S |-> st.ns + PosIn(ss, x) - 1], st |-> [st EXCEPT !.ns = @ + Cardinality(S)]]
 
 RemoveNode(st, i, c) == [st EXCEPT !.cls[i].nodes = @ \ {c},
-                                   !.pend = SelectSeq(@, LAMBDA p : p # <<i, c>>)]
+                                   !.pend = SelectSeq(@, LAMBDA p : <<p[1], p[2]>> # <<i, c>>)]
 
 (***************************************************************************)
 (* union_internal / union_leaders / shrink_slots / move_to                   *)
@@ -156,7 +186,9 @@ MoveNodes(st, i, j, finv, cs) ==
         c2  == NRen(c, finv @@ fr.f)
         s1  == RemoveNode(fr.st, i, c)
         s2  == [s1 EXCEPT !.cls[j].nodes = @ \cup {c2},
-                          !.pend = IF <<j, c2>> \in Range(@) THEN @ ELSE Append(@, <<j, c2>>)]
+                          !.pend = IF <<j, c2>> \in {<<q[1], q[2]>> : q \in Range(@)}
+                                   THEN [k \in DOMAIN @ |-> IF <<@[k][1], @[k][2]>> = <<j, c2>> THEN <<j, c2, "full">> ELSE @[k]]
+                                   ELSE Append(@, <<j, c2, "full">>)]
     IN MoveNodes(s2, i, j, finv, Tail(cs))
 
 MoveTo(st, from, to) ==
@@ -164,7 +196,9 @@ MoveTo(st, from, to) ==
       j    == to.id
       map  == Comp(to.m, Inv(from.m))             \* slots(j) -> slots(i)
       finv == Inv(map)                            \* slots(i) -> slots(j)
-      s1   == [st EXCEPT !.uf[i] = [id |-> j, m |-> map]]
+      dnew == AnMerge(st.cls[i].data, st.cls[j].data)            \* the join of both data; parents of j re-analysed if it changed
+      s0   == IF dnew = st.cls[j].data THEN st ELSE TouchT([st EXCEPT !.cls[j].data = dnew], j, "only")
+      s1   == [s0 EXCEPT !.uf[i] = [id |-> j, m |-> map]]
       s2   == MoveNodes(s1, i, j, finv, SetToSeq(s1.cls[i].nodes))
       moved == {Comp(Comp(map, p), finv) : p \in {q \in st.cls[i].grp : \A x \in Rng(map) : q[x] \in Rng(map)}}
       g2   == GClose(s2.cls[j].grp \cup moved)
@@ -239,12 +273,19 @@ SelfSym(st, i, c) ==
        IF g2 = st.cls[i].grp THEN st ELSE Touch([st EXCEPT !.cls[i].grp = g2], i)
 
 HandlePending(st, p) ==
-  LET i == p[1]
-      c == p[2]
+  LET i  == p[1]
+      c  == p[2]
+      ty == p[3]
   IN IF ~(i \in Alive(st) /\ c \in st.cls[i].nodes) THEN st
      ELSE
-       LET a0 == [id |-> i, m |-> IdOn(st.cls[i].slots)]
-           s1 == ShrinkLoop(RemoveNode(st, i, c), a0, c)
+       \* update_analysis runs while the e-node is still in its class: an e-node that refers to its own class and improves
+       \* it queues ITSELF again
+       LET sA == UpdateAnalysis(st, i, c) IN
+       IF ty = "only" THEN sA
+       ELSE
+       LET req == {q \in Range(sA.pend) : <<q[1], q[2]>> = <<i, c>>}
+           a0 == [id |-> i, m |-> IdOn(sA.cls[i].slots)]
+           s1 == ShrinkLoop(RemoveNode(sA, i, c), a0, c)
            n  == FindNode(s1, c)
            ai == FindA(s1, a0)
            hs == Hits(s1, n)
@@ -255,7 +296,11 @@ HandlePending(st, p) ==
                 fr == Fresh(s1, NPub(n) \ DOMAIN g0)
                 c2 == NRen(n, g0 @@ fr.f)
                 s2 == [fr.st EXCEPT !.cls[ai.id].nodes = @ \cup {c2}]
-            IN SelfSym(s2, ai.id, c2)
+                \* the entry the e-node queued for itself moves to the canonical spelling (repair 352017a; before it the
+                \* stale entry made the implementation panic)
+                s3 == IF req = {} \/ <<ai.id, c2>> \in PendKeys(s2) THEN s2
+                      ELSE [s2 EXCEPT !.pend = Append(@, <<ai.id, c2, (CHOOSE q \in req : TRUE)[3]>>)]
+            IN SelfSym(s3, ai.id, c2)
 
 RECURSIVE Rebuild(_)
 Rebuild(st) ==
@@ -278,9 +323,10 @@ AddNode(st, n0) ==
            i  == st.nid
            sl == Rng(fr.f)
            c  == NRen(n, fr.f)
-           s1 == [fr.st EXCEPT !.cls = (i :> [alive |-> TRUE, slots |-> sl, nodes |-> {c}, grp |-> {IdOn(sl)}]) @@ @,
+           s1 == [fr.st EXCEPT !.cls = (i :> [alive |-> TRUE, slots |-> sl, nodes |-> {c}, grp |-> {IdOn(sl)},
+                                                  data |-> AnMake(fr.st, c)]) @@ @,            \* alloc_eclass: datum of the first node
                                !.uf  = (i :> [id |-> i, m |-> IdOn(sl)]) @@ @,
-                               !.pend = Append(@, <<i, c>>),
+                               !.pend = Append(@, <<i, c, "full">>),
                                !.nid = i + 1]
        IN [st |-> Rebuild(s1), a |-> [id |-> i, m |-> Inv(fr.f)]]
 
@@ -289,11 +335,15 @@ RECURSIVE AddTerm(_, _), AddChildren(_, _, _, _)
 AddChildren(st, t, k, acc) ==
   IF k > Len(t.ch) THEN [st |-> st, ch |-> acc]
   ELSE
-    LET r  == AddTerm(st, t.ch[k].t)
-        fr == Fresh(r.st, Range(t.ch[k].bd))
-        bd == [i \in DOMAIN t.ch[k].bd |-> fr.f[t.ch[k].bd[i]]]
-        a  == [id |-> r.a.id, m |-> [x \in DOMAIN r.a.m |-> Ap(fr.f, r.a.m[x])]]
-    IN AddChildren(fr.st, t, k + 1, Append(acc, [bd |-> bd, a |-> a]))
+    \* every binder POSITION gets its own fresh name; a name bound twice (Bind<Bind<..>>, the inner binder shadows the
+    \* outer one) refers to its last binder
+    LET r   == AddTerm(st, t.ch[k].t)
+        tbd == t.ch[k].bd
+        bd  == [i \in DOMAIN tbd |-> r.st.ns + i - 1]
+        f   == [x \in Range(tbd) |-> bd[LastPos(tbd, x)]]
+        st2 == [r.st EXCEPT !.ns = @ + Len(tbd)]
+        a   == [id |-> r.a.id, m |-> [x \in DOMAIN r.a.m |-> Ap(f, r.a.m[x])]]
+    IN AddChildren(st2, t, k + 1, Append(acc, [bd |-> bd, a |-> a]))
 AddTerm(st, t) ==
   LET r == AddChildren(st, t, 1, << >>) IN
   AddNode(r.st, [op |-> t.op, sl |-> t.sl, ch |-> r.ch])
